@@ -38,6 +38,9 @@ fn run_until_block(w: &mut World) {
                 for c in &cancelled {
                     if !w.issued.iter().any(|(i, _)| *i == c.0) { w.viol.push(format!("I2: cancellation of an order that was never reported ({})", c.0)); }
                     if w.cancelled.contains(&c.0) { w.viol.push(format!("I2: order {} cancelled twice", c.0)); }
+                    // an order whose answer the program already received as a value cannot be given up any more
+                    let fulfilled = matches!(w.answered.get(&c.0).map(|s| s.as_str()), Some("val")) || (w.answered.get(&c.0).map(|s| s.as_str()) == Some("defer") && w.settled.get(&c.0).map(|s| s.as_str()) == Some("val"));
+                    if fulfilled { w.viol.push(format!("I2: order {} reported as cancelled after the host had fulfilled it", c.0)); }
                     w.cancelled.push(c.0);
                 }
                 w.last = "S".into(); // the pending list itself is reported once and is part of the ledger, not of the state
